@@ -40,7 +40,12 @@ class _ProxyEndpoint(object):
 
 
 class SocksPipe(object):
-    def __init__(self, method_reply, reply_for):
+    def __init__(self, method_reply, reply_for, report_late=False):
+        """``report_late``: the proxy endpoint's connect() Deferred stays unfired until ``report()`` is
+        called (an endpoint whose result reaches its caller only after the exchange already happened on
+        the connection - legal for an IStreamClientEndpoint)."""
+        self.report_late = report_late
+        self._report_d = None
         self.method_reply = bytes(method_reply)
         self.reply_for = reply_for
         self.transport = FakeTransport(self._on_write)
@@ -75,7 +80,16 @@ class SocksPipe(object):
         proto = factory.buildProtocol(IPv4Address("TCP", "127.0.0.1", 9050))
         self.proto = proto
         proto.makeConnection(self.transport)
+        if self.report_late:
+            self._report_d = defer.Deferred()
+            return self._report_d
         return defer.succeed(proto)
+
+    def report(self):
+        """fire the connect() Deferred of a ``report_late`` endpoint (once)"""
+        d, self._report_d = self._report_d, None
+        if d is not None:
+            d.callback(self.proto)
 
     # ------------------------------------------------------------------ client -> server
     def _on_write(self, data):
